@@ -270,12 +270,43 @@ CHECKS.update({
 PENDING = "check not built yet in this session (under construction; not a claim that the technique cannot apply)"
 
 
+# correspondence families added after the seeded-change rounds 4-5 (DESIGN.md 13.3); appended to the texts above
+LATER = {
+    "C01": "Also: From<String> of every metric type keeps its text; the same tag repeated on one call; the scripted sink logs "
+           "flush() (a metric call must not flush).",
+    "C03": "Also: sinks that answer Ok(n) for arbitrary n; an error handler that itself makes a failing quiet send on the same "
+           "client (family XN); two threads failing at once while the first handler invocation is still running (XT).",
+    "C06": "Also: the writer histories - fault histories included - driven through a StatsdClient over a user-written buffered "
+           "sink (family CW: send_metric(&Counter::from(text)), StatsdClient::flush).",
+    "C07": "Also: family CW (histories through StatsdClient) and family UR (the real UDP sinks over a socket connected to a "
+           "closed port: ECONNREFUSED on every other send, then a listener appears) - every call must return.",
+    "C10": "Also: the usize an accepted emit returns is the metric's byte length (non-ASCII payloads).",
+    "C11": "Also: unbroken runs of 17-70 panics.",
+    "C13": "Also: statistics read in the middle of a history (op s: reading puts nothing on the wire), UDP sockets connected "
+           "to a closed port (family UR).",
+    "C14": "Also: statistics read in the middle of a history equal the figures of the datagrams received so far; family UR.",
+    "C15": "Also: soaks of 8-12 producers released together by a barrier (lost updates of a counter need overlapping increments).",
+    "C16": "Also: a wrapped sink that answers Ok(0) (accepted: the handler stays silent); an unscripted flush of the wrapped "
+           "sink answers with an error of its own (a worker that flushes shows up in the handler's record).",
+    "C17": "Also: the holder's read functions get_global_default / is_global_default_set before, between and after the sets, on "
+           "the calling and on fresh threads; a macro must not flush the sink.",
+    "C18": "Also: programs that format the holder with {:?} under the scheduler (a trait impl is a fourth access path); the "
+           "global holder through set_global_default / get_global_default / is_global_default_set in fresh processes.",
+    "C19": "Also: the real buffered socket sinks with their statistics read while lines are buffered (reading is not an "
+           "occasion to write).",
+    "C20": "Also: Debug formatting (plain and pretty) of every sink and of the client; the writer's fault histories in both "
+           "build profiles.",
+}
+
+
 def main():
     checks = []
     for pid in ALL:
         if pid not in CHECKS:
             continue
         cat, text, note, tech, ref = CHECKS[pid]
+        if pid in LATER:
+            text = text + "  " + LATER[pid]
         checks.append({
             "property_id": pid,
             "quick_cmd": "./check %s --tier quick" % pid,
